@@ -142,7 +142,9 @@ class ElementAttributeXMLTransformer(XMLTransformer):
         new_attrs: AttributesImpl = attrs
         if self.event_match_result() and name in self.name_attributes_map:
             new_attrs = AttributesImpl(attrs._attrs | self.name_attributes_map[name])
-            self.add_change(self._my_locator.getLineNumber())
+            # an element that already has these values is not a change
+            if new_attrs._attrs != attrs._attrs:
+                self.add_change(self._my_locator.getLineNumber())
         super().startElement(name, new_attrs)
 
 
